@@ -19,6 +19,12 @@ RULE = ("each case builds the real ExecutionManager (ExecutionManager::new + run
         "(4) a first batch of 33-90 (thorough 33-200) requests with T in {2,3,5,8}: more than 32 (FuturesUnordered's poll budget) / 128 (tokio's coop budget) outstanding at once; "
         "(5) a LARGE timeout T in {50, 1000, 100000} ticks with delays in {0, 1, T-1, T, T+1, 2T, never} and a silence of 0 / 700 / 250000 ticks after every round (requests after a long idle gap; "
         "timer-wheel levels 1-3); (6) all of these at once (batches 20-50); (7) NO request at all: time passes, then (60 %) Shutdown. "
+        "CONFIGURATION-SHAPE families (N/4 further cases `cfg<k>`, separately seeded; k mod 8; `init T n m x mode`): (0,1,2) the manager is ASSEMBLED AS ExecutionBuilder DOES - ExecutionManager::init "
+        "instead of ::new: init builds the response channel itself and the responses are read from the MERGED account stream it returns (account snapshot + the client's account stream with auto-reconnect + "
+        "responses; only order events are observed) - with the client's account stream `ip` pending for ever / `il` live (a balance event every tick) / `ie` ENDING after two events and re-connecting "
+        "(2 ticks) for ever, own exchange 0..3; (3,4) the request channel is CLOSED (`close`: every sender dropped, the request stream ends) instead of Shutdown being sent, in every case, while requests "
+        "are outstanding (::new and ::init assemblies); (5) a HUGE request timeout T in {1e7, 1e9, 3e9} ticks (28 h / 116 days / 347 days) with delays {0, 1, T-1, T, T+1, 2T, never}; (6) no request, then the "
+        "channel is closed; (7) ::init assembly x non-first exchange x 20-50 outstanding x (50 %) closed channel. "
         "Observed per op: every request the manager HANDS TO THE CLIENT (the scripted client records what it receives: exchange id, instrument NAME, strategy, client order id, side / price / "
         "quantity / kind / time in force or the cancel's order id; `fwd` lines in intake order), the sorted multiset of events received on the manager's response channel WITH the payload each carries "
         "(order id, exchange time, filled quantity of an accepted open; order id, exchange time of a confirmed cancel; error kind with its instrument / asset argument, its text, the exchange of "
@@ -50,6 +56,13 @@ ASSUMPTIONS = [
     "FuturesUnordered, tokio::select! fairness, timer-wheel granularity and wake-ups are NOT modelled: the model is a labelled transition system whose `poll` label may be taken at any time",
     "requests still in flight at Shutdown (or when the request stream closes / the response receiver is dropped) are dropped: the property says `while running`",
     "virtual time only (paused clock, current-thread runtime); multi-thread runtimes are not exercised",
+    "configuration shapes (configuration audit): the property does not depend on how the manager is assembled - ExecutionManager::new or ExecutionManager::init (the ExecutionBuilder path; the account stream "
+    "merged with the responses being pending, live or ending-and-reconnecting) - model and spec ignore the `mode` token of `init`; closing the request channel (`close`) is Shutdown for model and spec "
+    "(manager.rs: `Some(Shutdown) | None => break`): requests in flight are dropped, the spec is silent afterwards",
+    "the request timeout and every time step are below 6.8e9 ticks = 2^36 ms (about 2.2 years), the documented maximum of tokio's timers (a tokio::time::timeout beyond it fires early: observed with "
+    "T = 1e11 ticks = 31 years: requests due after 31 years are failed / answered after about 2.2 years - tokio's limit, not the manager's); `init` / `adv` / `jump` with a larger number are rejected alike by harness (panic `bad duration`) and drivers (`bad-op`)",
+    "NOT exercised (configuration audit, open): several managers on different exchanges sharing ONE response channel; the response receiver dropped while requests are outstanding; instrument index sets that "
+    "are not contiguous (the indexer is C04's); the response channel is unbounded by type (no capacity dimension)",
 ]
 SOURCE_FILES = ["barter/src/execution/manager.rs", "barter/src/execution/request.rs", "barter/src/execution/builder.rs", "barter-execution/src/client/mod.rs",
                 "barter-execution/src/indexer.rs"]
@@ -108,7 +121,7 @@ LEVEL_TEXT = ("Proof (PARTIAL: bookkeeping proved, runtime tied by correspondenc
               "timeout_carries_nothing. NOT modelled, hence not proved: FuturesUnordered, tokio::select! fairness (that a ready future IS eventually polled - liveness is only "
               "`_partial`), timer-wheel granularity and wake-ups; these are exercised, not proved, by running the real ExecutionManager::run under virtual time on every check.")
 LEVEL_NOTE = ("Trusted: Lean kernel; axioms propext/Classical.choice/Quot.sound only; the hand-written transition system (tied to manager.rs/request.rs by sampled correspondence: "
-              "200 + 50 quick / 5 000 + 1 250 random + 3 240 enumerated small-scope cases thorough, prompt and late time steps, batches up to 90 (thorough 200) outstanding, a non-first exchange, zero / negative / 1e-8 / 1e15 prices and quantities, timeouts up to 100 000 ticks); tokio's paused clock; harness and driver. "
+              "200 + 50 + 50 quick / 5 000 + 1 250 + 1 250 (configuration shapes: ExecutionManager::init with pending / live / ending account stream, closed request channel, timeouts up to 3e9 ticks) random + 3 240 enumerated small-scope cases thorough, prompt and late time steps, batches up to 90 (thorough 200) outstanding, a non-first exchange, zero / negative / 1e-8 / 1e15 prices and quantities, timeouts up to 100 000 ticks); tokio's paused clock; harness and driver. "
               "Hypotheses: EchoesKey (client answers about the order it was asked about, error names - instrument / asset - configured; violations are modelled and exercised but excluded from exactly-once: the code then emits no event "
               "or attributes it to the echoed key), requests for configured keys (else the manager panics), indexer = identity on configured keys (C04). Requests in flight at Shutdown are "
               "dropped (property: `while running`). Multi-thread runtimes are not exercised (paused clock needs the current-thread runtime).")
